@@ -4,6 +4,16 @@ SIM_NOTE = ("trusted base: the behavioural nRF24L01+ simulator (vlib/sim, self-t
             "driver; chip assumptions (a)-(e) of DESIGN.md 2.6")
 
 CHECKS = [
+    {"property_id": "C17", "level": "exploration",
+     "text": "Hypothesis-generated mesh scenarios: a master and 1..8 (quick) / 1..12 (thorough) RF24Mesh / RF24MeshNoMaster nodes with "
+             "drawn IDs, start offsets and MCU timing models join concurrently, run a drawn script of lookups / sends / writes / "
+             "check_connection / release / re-join / power loss one call at a time, then look IDs up concurrently in staggered rounds; "
+             "plus an enumerated sweep of a relay and its child asking -3..+3 ms apart; judged against the master's public table and "
+             "all queues; with a loss word only no-exception / termination / valid-or-None are claimed.  Schedules are sampled: the "
+             "weakest claim of the set",
+     "design_ref": "4/C17", "note": SIM_NOTE + "; in concurrent phases an answer of -1 (no answer) is accepted; nodes orphaned by a "
+     "parent that released or moved are not expected to be reachable",
+     "technique": "property-based testing: Hypothesis-generated multi-node mesh scenarios (concurrent joins, scripted calls, staggered concurrent lookups) on the discrete-event simulation"},
     {"property_id": "C07", "level": "exploration",
      "text": "Hypothesis-generated histories of 1..12 public network / mesh calls on drawn nodes of drawn topologies (network family "
              "and mesh family), every node running its update() loop as a task, under a drawn cyclic loss word (lost packets, lost "
